@@ -79,6 +79,7 @@ static void create_interior_parent_of_border(border_node* const left,
      */
     ni->set_child_at(0, left);
     ni->set_child_at(1, right);
+    YAKUSHIMA_VERIF_YIELD(Y_STORE | Y_CAT_NODE, ni);
     ni->n_keys_increment();
     /**
      * release interior parent to global.
